@@ -141,6 +141,13 @@ def make_backend(cfg, seed=0):
         dkw.update(stats_calc_period=-1, stats_calc_num_samples=M * P)
         rkw.update(stats_calc_period=-1, stats_calc_num_samples=M)
     dig = [[SpyReal(**dkw) for _ in range(npol)] for _ in range(na)]
+    # decoys: filterbanks with the same coefficient count but a different taps/branches split (and another
+    # window), built first, so that anything memoised at module level on too coarse a key is poisoned
+    # deterministically -- whatever this worker process happened to run before
+    for (m2, p2) in ((2 * M, P // 2), (M // 2, 2 * P)):
+        if m2 >= 1 and p2 >= 2 and m2 * p2 == M * P and p2 % 2 == 0:
+            v.PolyphaseFilterbank(num_taps=m2, num_branches=p2, window_fn=cfg.get('window', 'hamming'))
+    v.PolyphaseFilterbank(num_taps=M, num_branches=P, window_fn='boxcar')
     fb = [[v.PolyphaseFilterbank(num_taps=M, num_branches=P, window_fn=cfg.get('window', 'hamming'))
            for _ in range(npol)] for _ in range(na)]
     rq = [[SpyComplex(**rkw) for _ in range(npol)] for _ in range(na)]
@@ -170,7 +177,6 @@ def pfb_definition(x, M, P, window):
         acc += xs[m:m + nspec, :] * w[m]
     p = np.arange(P, dtype=LD)
     k = np.arange(P // 2, dtype=LD)
-    ang = -2 * LD(np.pi) * 0  # placeholder to keep dtype
     two_pi = 2 * np.arctan2(LD(0), LD(-1))          # 2*pi in long double
     ph = (p[:, None] * k[None, :]) % LD(P)
     E = np.cos(two_pi * ph / LD(P)) - 1j * np.sin(two_pi * ph / LD(P))
